@@ -414,6 +414,7 @@ func startStack(engine, backendAddr, base string, preserve bool) (*stk, error) {
 		cfg.Server.RateLimits.PerIPRequestsPerMinute = 0
 		cfg.Server.RateLimits.HealthRequestsPerMinute = 0
 		cfg.Server.RateLimits.BurstSize = 0
+		stack.ApplyVary(cfg, stack.VaryFor("c16", engine, base, preserve)) // settings no property mentions (scratch directories live in the run directory)
 		cfg.Proxy.Engine = engine
 		cfg.Proxy.LoadBalancer = "priority"
 		cfg.Discovery.ModelDiscovery.Enabled = false
